@@ -97,10 +97,26 @@ class Wrap:
         return ('upvar', i - 1)
 
     def norm(self, e):
-        """normalise parameter references: coroutine captures -> ('upvar', k)"""
+        """normalise parameter references: coroutine captures -> ('upvar', k); a tuple rebuilt from all
+        components of one destructured parameter, in order, -> that parameter"""
         e = strip_casts(e)
         if self.is_async and e[0] == 'field' and e[1] == ('param', 1) and str(e[3]).startswith('coroutine:'):
             return ('upvar', int(e[2]))
+        if e[0] == 'agg' and e[1] == 'tuple' and e[2]:
+            parts = [self.norm(x) for x in e[2]]
+            roots = set()
+            okk = True
+            for i, p_ in enumerate(parts):
+                p_ = strip_casts(p_)
+                if p_[0] == 'field' and p_[2] == str(i) and p_[3] == 'tuple':
+                    roots.add(self.norm(p_[1]) if p_[1][0] != 'param' else p_[1])
+                elif p_[0] == 'call' and p_[1] == N.CLONE and p_[2] and strip_casts(p_[2][0])[0] == 'field' and strip_casts(p_[2][0])[2] == str(i):
+                    q = strip_casts(p_[2][0])
+                    roots.add(self.norm(q[1]) if q[1][0] != 'param' else q[1])
+                else:
+                    okk = False
+            if okk and len(roots) == 1:
+                return roots.pop()
         return e
 
 
